@@ -385,7 +385,8 @@ Qed.
 (** a read-only file refuses every mutator and keeps its content *)
 Theorem readonly_rejects : forall q s o,
   f_ro s = true ->
-  match o with NewT _ | NewV _ | NewVs _ | Reopen _ | Obs | Count => False
+  match o with NewT _ | NewV _ | NewVs _ | Reopen _ | Obs | Count
+             | VEq _ _ | VGet _ _ | VGetNoneT _ | VShow _ | VSup _ | VSwap _ _ | PShow => False
              | SetUnc _ => q_ro_unc_leak q = false | _ => True end ->
   fst (step q o s) = s /\ exists e, snd (step q o s) = Err e.
 Proof.
@@ -405,6 +406,7 @@ Proof.
   - cbn; split; try (now apply with_prop_same); eexists; reflexivity.
   - unfold prop_set_definition. destruct (is_empty _); cbn; split; try (now apply with_prop_same); eexists; reflexivity.
   - cbn; split; try (now apply with_prop_same); eexists; reflexivity.
+  - (* Cmp *) split; [reflexivity|eexists; reflexivity].
 Qed.
 
 (** ... except that on the pinned tree a refused [uncertainty(d)] shows through until the file is closed *)
@@ -567,6 +569,17 @@ Proof.
   - (* Count *)
     cbn [fst snd]. split; [assumption|]. split; [reflexivity|].
     unfold abs in *. destruct (f_prop s) as [ps|]; cbn; auto.
+  - (* VEq *) cbn. auto.
+  - (* VGet *) cbn [fst snd]. split; [assumption|]. split; [reflexivity|].
+    unfold variant_get. destruct (vtype_eqb (type_of v) t); cbn; auto.
+  - (* VGetNoneT *) cbn. auto.
+  - (* VShow *) cbn [fst snd pure_answer meets]. auto.
+  - (* VSup *) cbn. auto.
+  - (* VSwap *) cbn. auto.
+  - (* Cmp *) cbn [fst snd]. split; [assumption|]. split; [reflexivity|].
+    unfold abs. destruct (f_prop s); cbn; auto. destruct (f_ro s); cbn; auto.
+  - (* PShow *) cbn [fst snd]. split; [assumption|]. split; [reflexivity|].
+    unfold abs. destruct (f_prop s); cbn; auto.
 Qed.
 
 (** history_refines: for EVERY list of operations (creations, assignments, replacements, clears,
@@ -656,3 +669,57 @@ Proof. reflexivity. Qed.
 Example unit_example :
   exists ps, f_prop (final pinned [NewV (VString "x"); SetUnit " m V "] fresh) = Some ps /\ o_unit (observe ps) = Some "mV".
 Proof. eexists. split; reflexivity. Qed.
+
+(** * Further routes: the Variant value class and Property::compare *)
+
+Theorem variant_eqb_type : forall a b, variant_eqb a b = true -> type_of a = type_of b.
+Proof.
+  intros a b. destruct a as [x|x|x|x|x|x|x|], b as [y|y|y|y|y|y|y|]; cbn [variant_eqb type_of]; intros; try discriminate; reflexivity.
+Qed.
+
+(** apart from doubles (NaN <> NaN, -0.0 == 0.0 as in C++) == is equality of the carried value *)
+Theorem variant_eqb_eq : forall a b, (forall d, a <> VDouble d) -> (variant_eqb a b = true <-> a = b).
+Proof.
+  intros a b Hd. split.
+  - destruct a as [x|x|x|x|x|x|x|], b as [y|y|y|y|y|y|y|]; cbn [variant_eqb]; intros H; try discriminate; try reflexivity.
+    + apply Bool.eqb_prop in H. now subst.
+    + apply Z.eqb_eq in H. now subst.
+    + apply Z.eqb_eq in H. now subst.
+    + apply Z.eqb_eq in H. now subst.
+    + apply Z.eqb_eq in H. now subst.
+    + exfalso. now apply (Hd x).
+    + apply String.eqb_eq in H. now subst.
+  - intros <-. destruct a as [x|x|x|x|x|x|x|]; cbn [variant_eqb]; auto using Bool.eqb_reflx, Z.eqb_refl, String.eqb_refl.
+    exfalso. now apply (Hd x).
+Qed.
+
+(** get<T>() returns the carried value exactly when T is its type *)
+Theorem variant_get_spec : forall t v,
+  (type_of v = t -> variant_get t v = Ok v) /\ (type_of v <> t -> variant_get t v = Err INVARG).
+Proof.
+  intros t v. unfold variant_get. split; intros H.
+  - rewrite H, vtype_eqb_refl. reflexivity.
+  - destruct (vtype_eqb (type_of v) t) eqn:E; [apply vtype_eqb_eq in E; contradiction|reflexivity].
+Qed.
+
+Lemma N_compare_antisym_sign : forall x y,
+  match N.compare x y with Lt => (-1)%Z | Gt => 1%Z | Eq => 0%Z end =
+  (- match N.compare y x with Lt => (-1)%Z | Gt => 1%Z | Eq => 0%Z end)%Z.
+Proof. intros x y. rewrite (N.compare_antisym x y). destruct (N.compare x y); reflexivity. Qed.
+
+(** compare() is antisymmetric in its sign and 0 exactly for equal names *)
+Theorem str_cmp_antisym : forall a b, str_cmp a b = (- str_cmp b a)%Z.
+Proof.
+  induction a as [|x a IH]; intros [|y b]; cbn; try reflexivity.
+  rewrite (N.compare_antisym (N_of_ascii y) (N_of_ascii x)).
+  destruct (N.compare (N_of_ascii y) (N_of_ascii x)); cbn; auto.
+Qed.
+
+Theorem str_cmp_zero : forall a b, str_cmp a b = 0%Z <-> a = b.
+Proof.
+  induction a as [|x a IH]; intros [|y b]; cbn; split; intros H; try discriminate; try reflexivity.
+  - destruct (N.compare (N_of_ascii x) (N_of_ascii y)) eqn:E; try discriminate.
+    apply N.compare_eq in E. apply (f_equal ascii_of_N) in E. rewrite !ascii_N_embedding in E. subst.
+    f_equal. now apply IH.
+  - inversion H; subst. rewrite N.compare_refl. now apply IH.
+Qed.
